@@ -167,8 +167,39 @@ def load_crate(d, name):
         return json.loads(fh.read())
 
 
-def load_workspace(root=None):
-    d = facts_dir(root)
+def fresh_facts_dir(root=None, workspace=True):
+    """thorough tier: extract the facts again from the tree at root into a private directory,
+    without consulting or updating the cache.  The caller removes the directory."""
+    root = root or REPO
+    ensure_driver()
+    tmp = tempfile.mkdtemp(prefix="rbv-fresh-", dir=CACHE if os.path.isdir(CACHE) else None)
+    extract(root, tmp, workspace=workspace)
+    n = 0
+    for f in os.listdir(tmp):
+        if f.endswith(".json"):
+            with open(os.path.join(tmp, f), "rb") as src, \
+                    gzip.open(os.path.join(tmp, f + ".gz"), "wb", compresslevel=1) as dst:
+                shutil.copyfileobj(src, dst)
+            os.unlink(os.path.join(tmp, f))
+            n += 1
+    if n == 0:
+        shutil.rmtree(tmp, ignore_errors=True)
+        raise FactError("driver produced no fact files")
+    return tmp
+
+
+def load_workspace(root=None, fresh=False):
+    if fresh:
+        os.makedirs(CACHE, exist_ok=True)
+        d = fresh_facts_dir(root)
+        try:
+            return _load_from(d)
+        finally:
+            shutil.rmtree(d, ignore_errors=True)
+    return _load_from(facts_dir(root))
+
+
+def _load_from(d):
     crates = {}
     for c in WORKSPACE_CRATES:
         crates[c] = load_crate(d, c)
